@@ -104,6 +104,8 @@ pub async fn handle_notify_get_or_head(
     };
 
     if wait {
+        #[cfg(routinator_verif)]
+        crate::verif::point("notify.before_subscribe");
         notify.subscribe().recv().await;
     }
 
